@@ -373,6 +373,8 @@ type refCase struct {
 	NilOpt     bool   `json:"nil_optional_fields"` // ErrorHandler and ContextConstructor left nil
 	// TickInFinal: the final refresh is held in progress while a tick arrives.
 	TickInFinal bool `json:"tick_during_final_refresh"`
+	// ShutdownInRefresh: Shutdown is called while the refresh of the last tick is still in progress.
+	ShutdownInRefresh bool `json:"shutdown_during_a_refresh"`
 }
 
 func runRefresh(c refCase) (what string, checks int) {
@@ -404,6 +406,9 @@ func runRefresh(c refCase) (what string, checks int) {
 		refr := &fakeRefresher{log: log, outcomes: outcomes, parkAt: -1, gate: make(chan struct{})}
 		if c.TickInFinal && c.OnShutdown {
 			refr.parkAt = len(c.Ticks)
+		}
+		if c.ShutdownInRefresh && len(c.Ticks) > 0 {
+			refr.parkAt = len(c.Ticks) - 1
 		}
 		conf := &service.RefreshWorkerConfig{Clock: clock, Refresher: refr, Schedule: sched, RefreshOnShutdown: c.OnShutdown}
 		if !c.NilOpt {
@@ -510,6 +515,45 @@ func runRefresh(c refCase) (what string, checks int) {
 			et := ""
 			if f {
 				et = fmt.Sprintf("refresh-error-%d", i)
+			}
+			if c.ShutdownInRefresh && i == len(c.Ticks)-1 {
+				// this refresh is held in progress: Shutdown arrives now.  It must perform its own single
+				// final refresh (when configured) and return its error; the interrupted iteration may
+				// finish its bookkeeping afterwards, but nothing may be refreshed again.
+				before := len(refr.ctxs)
+				shutCtx := context.WithValue(context.Background(), "which", "shutdown")
+				var serr error
+				done := false
+				go func() { serr = w.Shutdown(shutCtx); done = true }()
+				synctest.Wait()
+				checks++
+				if !done {
+					fail("Shutdown did not return while the refresh of tick %d was still in progress", i+1)
+				}
+				finals := len(refr.ctxs) - before
+				switch {
+				case c.OnShutdown && finals != 1:
+					fail("Shutdown during an in-flight refresh performed %d final refreshes, want exactly 1", finals)
+				case !c.OnShutdown && finals != 0:
+					fail("Shutdown without RefreshOnShutdown refreshed %d times", finals)
+				case c.OnShutdown && c.FinalFails && !errors.Is(serr, finalErr):
+					fail("the final refresh failed with %q but Shutdown returned %v", finalErr, serr)
+				case (!c.OnShutdown || !c.FinalFails) && serr != nil:
+					fail("Shutdown returned %v", serr)
+				}
+				close(refr.gate)
+				synctest.Wait()
+				select {
+				case clock.last <- clock.now:
+				default:
+				}
+				synctest.Wait()
+				time.Sleep(time.Hour)
+				synctest.Wait()
+				if extra := len(refr.ctxs) - before - finals; extra != 0 {
+					fail("%d refreshes happened after Shutdown returned", extra)
+				}
+				return
 			}
 			if !segment(fmt.Sprintf("after tick %d", i+1), true, et, true, true) {
 				return
@@ -624,12 +668,15 @@ func TestRefresh(t *testing.T) {
 						if !onShut && ff {
 							continue
 						}
-						c := refCase{ticks, onShut, ff, nilOpt, onShut && (v+k)%2 == 1}
+						c := refCase{ticks, onShut, ff, nilOpt, onShut && (v+k)%2 == 1, false}
+						if k > 0 && (v+k)%3 == 0 {
+							c.TickInFinal, c.ShutdownInRefresh = false, true
+						}
 						w, n := runRefresh(c)
 						r.Eval(int64(n))
 						total++
 						if w != "" {
-							r.Violation(fmt.Sprintf("refresh:%v", c), fmt.Sprintf("RefreshWorker with tick outcomes (true=error) %v, RefreshOnShutdown=%v, final refresh fails=%v, optional fields nil=%v, tick during the final refresh=%v: %s", c.Ticks, c.OnShutdown, c.FinalFails, c.NilOpt, c.TickInFinal, w), c)
+							r.Violation(fmt.Sprintf("refresh:%v", c), fmt.Sprintf("RefreshWorker with tick outcomes (true=error) %v, RefreshOnShutdown=%v, final refresh fails=%v, optional fields nil=%v, tick during the final refresh=%v, Shutdown during a refresh=%v: %s", c.Ticks, c.OnShutdown, c.FinalFails, c.NilOpt, c.TickInFinal, c.ShutdownInRefresh, w), c)
 							if r.TooMany() {
 								r.Finish()
 								t.Fail()
@@ -644,7 +691,7 @@ func TestRefresh(t *testing.T) {
 	r.NontrivialN(total)
 	r.Count("scenarios", total)
 	r.Exhaustive(fmt.Sprintf("every sequence of 0..%d ticks x refresh outcome {nil, error} per tick, then Shutdown x RefreshOnShutdown x final outcome, then a late tick; with instrumented and with nil optional config fields; log checked after every injected event", maxTicks))
-	r.Sample(map[string]any{"case": refCase{[]bool{false, true}, true, true, false, false}, "expected_log": "until 1000 | after 1000 | new 1 | refresh ctx=1 | cancel 1 | until 2000 | after 2000 | new 2 | refresh ctx=2 | cancel 2 | handle refresh-error-1 | until 3000 | after 3000 | new 3 | refresh ctx=3 | cancel 3"})
+	r.Sample(map[string]any{"case": refCase{[]bool{false, true}, true, true, false, false, false}, "expected_log": "until 1000 | after 1000 | new 1 | refresh ctx=1 | cancel 1 | until 2000 | after 2000 | new 2 | refresh ctx=2 | cancel 2 | handle refresh-error-1 | until 3000 | after 3000 | new 3 | refresh ctx=3 | cancel 3"})
 	if r.Finish() > 0 {
 		t.Fail()
 	}
